@@ -8,6 +8,7 @@ from .runner import hyp_run
 
 PROP = "C01"
 LEVEL = "exploration"
+EVALUATION_COUNTER = "applications"
 RULE = (
     "G-tree trees (grammar ASTs, rule-shaped templates for every arrangement in drawn contexts, repository "
     "example inputs; 0-4 pre-rewrites) x all 11 rule instances x EVERY applicable node; oracle: exact rational "
